@@ -2,8 +2,10 @@
 (* Exhaustive check of the coordinate -> cell and snapping algorithms of PixelId.tla        *)
 (* against their abstract definitions (constant level: the space is enumerated by ASSUME).  *)
 (*   AXES      set of axes [den, o, s, n]                                                  *)
-(*   PV        variant of Idx ("round" must pass; "trunc" = negative twin = today's code)   *)
-(*   SV        variant of ScanNearest ("infinit" must pass; "maxinit" = twin = today's code) *)
+(*   PV        variant of Idx ("round" = the code, must pass; "trunc" = negative twin, the code    *)
+(*             before fix 1c57f27)                                                          *)
+(*   SV        variant of ScanNearest ("infinit" = the code, must pass; "maxinit" = negative  *)
+(*             twin, the code before fix a4d4ad0)                                            *)
 (*   SH, SW    grid on which every layout x every cell is snapped                          *)
 EXTENDS PixelId, TLC
 
@@ -24,7 +26,12 @@ SnapOK == \A cr \in [0..SH*SW-1 -> {0, 1}] : \A c \in 0..SH*SW-1 :
             LET e == Env(cr)  r == ScanNearest(e, c, SV) IN
             IF CrossSet(e) = {} THEN r = NONE ELSE r \in SnapSet(e, c)
 
+\* points exactly midway are outside C14's domain; whatever the algorithm answers there must still be
+\* one of the two nearest centres (checked for the positive variant only)
+MidwayOK == PV = "round" => \A ax \in AXES : MidwayStillNearest(ax)
+
 ASSUME OwnOK
 ASSUME PixelOK
+ASSUME MidwayOK
 ASSUME SnapOK
 =============================================================================
